@@ -977,7 +977,7 @@ def check(ctx):
     for i in range(0, len(ex), 4000):
         process(ctx, ex[i:i + 4000], "exh")
     process(ctx, targeted_cases(ctx), "tgt")
-    process(ctx, random_cases(ctx, ctx.scale(1500, 12000)), "rnd")
+    process(ctx, random_cases(ctx, ctx.scale(1100, 12000)), "rnd")
     if ctx.diffs and not ctx.violations:
         search(ctx)
 
